@@ -409,7 +409,9 @@ def run(ctx):
                             'set_distance_restraint on random trees vs model/Restraints.v',
                             'checks_milestones vs the window test',
                             '_initialize_cylces on rings 3-12, every root: restrained pair = closing edge',
-                            'gen_coords runs with generated build files judged restraint by restraint']
+                            'gen_coords runs with generated build files judged restraint by restraint',
+                            'single real update_positions calls next to a box face (volumes reaching the face, steps crossing it): stored position judged']
+    face_cases(ctx, ctx.n(60, 400))
     try:
         kernel_cases(ctx, ctx.n(600, 6000))
         cases = [restraint_case(ctx.rng) for _ in range(ctx.n(300, 3000))]
@@ -469,6 +471,57 @@ def run(ctx):
                  sample={'build_file': case['build'], 'molecules': case['molecules'], 'checks': rec['selected']})
 
 
+def face_step(c, mode, kind, prm, start, vec, box=6.0):
+    """one real update_positions call for a residue restrained to the given volume, grown from `start` along
+    `vec`: returns the stored position or None when the step is refused"""
+    import networkx as nx
+    import polyply.src.nonbond_engine as nbe
+    import polyply.src.random_walk as rw
+    boxv = np.array([box] * 3)
+    positions = np.ones((2, 3)) * np.inf
+    positions[0] = np.array(start)
+    eng = nbe.NonBondEngine(positions, {(0, 0): 0, (0, 1): 1}, ['A', 'A'], {frozenset(['A']): (0.47, 1.0)}, None, None, 1.1, boxv)
+    g = nx.Graph()
+    g.add_edge(0, 1)
+    g.nodes[1]['restraints'] = [[mode, np.array(c)] + list(prm) + [kind]]
+    g.search_tree = nx.bfs_tree(g, 0)
+    g.root = 0
+    w = rw.RandomWalk(0, eng, maxdim=boxv, maxiter=0)
+    w.molecule = g
+    ok = w.update_positions(np.array([vec], dtype=float), 1, 0)
+    return [float(x) for x in eng.positions[1]] if ok else None
+
+
+def face_cases(ctx, n):
+    """restraint volumes that reach a face of the periodic box, steps that cross that face: whatever is stored for
+    the residue has to lie in the declared volume (positions are absolute coordinates inside the box)"""
+    rng = ctx.rng
+    box = 6.0
+    for _ in range(n):
+        axis = rng.randrange(3)
+        hi = rng.random() < 0.5
+        kind = rng.choice(['sphere', 'cylinder', 'rectangle'])
+        mode = 'in'
+        c = [3.0, 3.0, 3.0]
+        c[axis] = round(box - rng.uniform(0.0, 0.6), 3) if hi else round(rng.uniform(0.0, 0.6), 3)
+        prm = {'sphere': [1.2], 'cylinder': [1.2, 1.2], 'rectangle': [1.2, 1.2, 1.2]}[kind]
+        start = [3.0, 3.0, 3.0]
+        start[axis] = round(box - rng.uniform(0.02, 0.3), 3) if hi else round(rng.uniform(0.02, 0.3), 3)
+        vec = [0.0, 0.0, 0.0]
+        vec[axis] = 1.0 if hi else -1.0
+        if rng.random() < 0.3:
+            vec[axis] = -vec[axis]          # control: a step that stays inside
+        stored = face_step(c, mode, kind, prm, start, vec, box)
+        crossed = stored is not None and abs(stored[axis] - start[axis]) > box / 2
+        ctx.case(('face', kind, tuple(c), tuple(start), tuple(vec)), nontrivial=True, sample={'kind': kind, 'centre': c, 'start': start, 'vector': vec, 'stored': stored})
+        ctx.feature('face_step_' + ('refused' if stored is None else ('stored_across_face' if crossed else 'stored')))
+        d = {'kind': kind, 'mode': mode, 'c': c, 'p': prm}
+        if stored is not None and not geom_ok(d, stored):
+            ctx.violation('spec', f"a residue restrained '{mode}' {kind} centre {c} {prm} was grown from {start} along {vec} and stored at "
+                          f"{[round(x, 4) for x in stored]}, outside the declared volume",
+                          {'face': True, 'kind': kind, 'mode': mode, 'c': c, 'p': prm, 'start': start, 'vec': vec})
+
+
 def search(ctx):
     """boundary-directed probe of the real predicates against the declared geometry"""
     import polyply.src.random_walk as rw
@@ -497,6 +550,11 @@ def search(ctx):
 
 def replay(ctx, data):
     print(json.dumps(data, indent=1, default=str)[:3000])
+    if data.get('face'):
+        stored = face_step(data['c'], data['mode'], data['kind'], data['p'], data['start'], data['vec'])
+        ok = stored is None or geom_ok({'kind': data['kind'], 'mode': data['mode'], 'c': data['c'], 'p': data['p']}, stored)
+        print('replay: stored', stored, 'inside the declared volume' if ok else 'OUTSIDE the declared volume')
+        return 0 if ok else 1
     if 'predicate' in data:
         import polyply.src.random_walk as rw
         acc = bool(rw.RESTRAINT_METHODS[data['predicate']](np.array(data['point']), [data['mode'], np.array(data['c'])] + data['p'] + [data['predicate']]))
